@@ -155,7 +155,20 @@ def deep_docs():
     many = 'SEC 1\n' + ''.join('  paragraph %d\n' % i for i in range(300))
     attrs = 'SEC' + ''.join('.c%d' % i for i in range(10)) + '{' + '|'.join('%s v%d' % (a, i) for i, a in enumerate(
         ['status', 'title', 'period', 'refersTo', 'alternativeTo', 'wId', 'GUID', 'evolvingId', 'style', 'lang'])) + '} 1 - h\n  x\n'
-    return [('act', deep), ('act', long_line), ('act', many), ('act', attrs)]
+    # a text node of more than 1 000 / 2 000 / 4 000 characters with an escaped marker pair at every offset around its middle (and its
+    # quarters), followed by real markup of the same kind: however the unparser divides the work, a pair must not be split
+    longs = []
+    for pair in ('//', '**', '__', '{{'):
+        close = '}}' if pair == '{{' else pair
+        real = ' {{^it}} end' if pair == '{{' else ' %sit%s end' % (pair, close)
+        for total in (1001, 1171, 2049, 4100):
+            for frac in (2, 4):
+                for k in range(3):
+                    pos = total // frac - 1 + k
+                    fill = 'lorem ipsum dolor sit amet ' * (total // 20 + 2)       # (no long run of one character: the run helpers recurse per character, finding F12)
+                    body = (fill[:pos] + '\\' + pair[0] + '\\' + pair[1] + fill[pos:])[:total + 2].rstrip()
+                    longs.append(('act', 'SEC 1 - h\n  ' + body + real + '\n'))
+    return [('act', deep), ('act', long_line), ('act', many), ('act', attrs)] + longs
 
 def empty_docs():
     """keyword lines with nothing after them (an empty CROSSHEADING, LONGTITLE, P, list, table, hierarchical element ...) next to a full sibling of
